@@ -216,11 +216,11 @@ Proof. intros. unfold nested_backend. cbn [blevel]. assert (l + 1 >? 1 = true) a
 (* induction principle for call trees (nested through list) *)
 Section CallInd.
   Variable P : call -> Prop.
-  Hypothesis H : forall bsel n children, Forall P children -> P (Call bsel n children).
+  Hypothesis H : forall bsel h n children, Forall P children -> P (Call bsel h n children).
   Fixpoint call_ind' (c : call) : P c :=
     match c with
-    | Call bsel n children =>
-        H bsel n children
+    | Call bsel h n children =>
+        H bsel h n children
           ((fix go (l : list call) : Forall P l :=
               match l with [] => Forall_nil P | ch :: t => Forall_cons ch (call_ind' ch) (go t) end) children)
     end.
@@ -233,19 +233,19 @@ Definition worker_inv (s : site) : Prop :=
 Definition sum_procs (ws : site) :=
   fix go (l : list call) : Z := match l with [] => 0 | ch :: t => procs ws ch + go t end.
 
-Lemma procs_unfold : forall s bsel n children,
-  procs s (Call bsel n children) =
-  match call_outcome s bsel n with
+Lemma procs_unfold : forall s bsel h n children,
+  procs s (Call bsel h n children) =
+  match call_outcome s bsel h n with
   | Raise _ => 0
   | Ok (b, eff) => (if is_process_kind (bkind b) then eff else 0) + sum_procs (worker_site s b) children
   end.
-Proof. intros. cbn [procs]. destruct (call_outcome s bsel n) as [[b eff]|]; reflexivity. Qed.
+Proof. intros. cbn [procs]. destruct (call_outcome s bsel h n) as [[b eff]|]; reflexivity. Qed.
 
 Definition all_default :=
   fix go (l : list call) : bool := match l with [] => true | ch :: t => default_tree ch && go t end.
 
-Lemma default_tree_unfold : forall bsel n children,
-  default_tree (Call bsel n children) = match bsel with None => true | Some _ => false end && all_default children.
+Lemma default_tree_unfold : forall bsel h n children,
+  default_tree (Call bsel h n children) = match bsel with None => true | Some _ => false end && all_default children.
 Proof. reflexivity. Qed.
 
 Lemma sum_procs_zero : forall ws children,
@@ -256,13 +256,28 @@ Proof.
   intros Hd. apply andb_prop in Hd as [Hd1 Hd2]. rewrite (Hc ws Hw Hd1), (IH Hd2). reflexivity.
 Qed.
 
+(* a backend named by the context is explicit: with a thread-based / sequential one no hint of the call changes it *)
+Lemma chosen_ctx_shm : forall s b h, s_ctx s = Some b -> kind_shm (bkind b) = true ->
+  chosen_r s None h = if hint_valid h then Ok b else Raise ValueError.
+Proof.
+  intros s b h Hctx Hk. unfold chosen_r, active_h. rewrite Hctx, Hk. destruct (hint_valid h); cbn [negb bind]; [|reflexivity].
+  rewrite andb_false_r. reflexivity.
+Qed.
+
+Lemma chosen_top_nohint : forall cpus, chosen_r (top_site cpus) None no_hint = Ok default_backend.
+Proof. reflexivity. Qed.
+
+Lemma is_no_hint_eq : forall h, is_no_hint h = true -> h = no_hint.
+Proof. intros [p r] H. unfold is_no_hint in H. cbn in H. unfold no_hint. f_equal; lia. Qed.
+
 (* below a worker of a default call, default calls start no process at all: whatever the tree *)
 Lemma procs_below_worker : forall c s, worker_inv s -> default_tree c = true -> procs s c = 0.
 Proof.
-  induction c as [bsel n children IH] using call_ind'. intros s Hw Hd.
+  induction c as [bsel h n children IH] using call_ind'. intros s Hw Hd.
   rewrite default_tree_unfold in Hd. apply andb_prop in Hd as [Hb Hch].
-  destruct bsel; [discriminate|]. rewrite procs_unfold. unfold call_outcome. cbn [chosen].
-  destruct Hw as (b & Hctx & Hk & Hl). unfold active. rewrite Hctx.
+  destruct bsel; [discriminate|]. rewrite procs_unfold. destruct Hw as (b & Hctx & Hk & Hl). unfold call_outcome.
+  rewrite (chosen_ctx_shm s b h Hctx) by (destruct Hk as [Hk|Hk]; rewrite Hk; reflexivity).
+  destruct (hint_valid h); cbn [bind]; [|reflexivity].
   destruct (configure b (s_env s) n) as [[b' eff]|] eqn:E; [|reflexivity].
   destruct (configure_spec _ _ _ _ _ E) as (Hge & Hlev & [[Hseq He] | [Heq Hne]]).
   - (* sequential: tasks run inline, at the same site *)
@@ -283,9 +298,9 @@ Qed.
 (* a default call made from the top level: its own workers and nothing else *)
 Lemma procs_top_parallel : forall cpus n children,
   n <> 0 -> resolve cpus n <> 1 -> all_default children = true ->
-  procs (top_site cpus) (Call None n children) = resolve cpus n.
+  procs (top_site cpus) (Call None no_hint n children) = resolve cpus n.
 Proof.
-  intros cpus n children Hn Hr Hd. rewrite procs_unfold. unfold call_outcome, chosen, active, top_site at 1. cbn [s_ctx s_env].
+  intros cpus n children Hn Hr Hd. rewrite procs_unfold. unfold call_outcome. rewrite chosen_top_nohint. cbn [bind].
   unfold configure, default_backend. cbn [bkind blevel].
   rewrite eff_unguarded; [|assumption|]. 2:{ unfold unguarded; cbn; repeat split; auto; lia. }
   cbn [bind]. change (e_cpus (s_env (top_site cpus))) with cpus.
@@ -298,9 +313,9 @@ Qed.
 (* a default call that resolves to one worker runs inline: its children are again top-level calls *)
 Lemma procs_top_sequential : forall cpus n children,
   n <> 0 -> resolve cpus n = 1 ->
-  procs (top_site cpus) (Call None n children) = sum_procs (top_site cpus) children.
+  procs (top_site cpus) (Call None no_hint n children) = sum_procs (top_site cpus) children.
 Proof.
-  intros cpus n children Hn Hr. rewrite procs_unfold. unfold call_outcome, chosen, active, top_site at 1. cbn [s_ctx s_env].
+  intros cpus n children Hn Hr. rewrite procs_unfold. unfold call_outcome. rewrite chosen_top_nohint. cbn [bind].
   unfold configure, default_backend. cbn [bkind blevel].
   rewrite eff_unguarded; [|assumption|]. 2:{ unfold unguarded; cbn; repeat split; auto; lia. }
   cbn [bind]. change (e_cpus (s_env (top_site cpus))) with cpus. rewrite Hr. cbn [Z.eqb Pos.eqb eff_model].
@@ -310,24 +325,47 @@ Qed.
 (* the first parallel call on each path from the root bounds everything below it *)
 Fixpoint frontier (cpus : Z) (c : call) : Z :=
   match c with
-  | Call _ n children =>
+  | Call _ _ n children =>
       if n =? 0 then 0
       else if resolve cpus n =? 1
       then (fix go (l : list call) : Z := match l with [] => 0 | ch :: t => frontier cpus ch + go t end) children
       else resolve cpus n
   end.
 
-Lemma procs_top_frontier : forall c cpus, default_tree c = true -> procs (top_site cpus) c = frontier cpus c.
+Definition all_nohint :=
+  fix go (l : list call) : bool := match l with [] => true | ch :: t => nohint_tree ch && go t end.
+
+Lemma nohint_tree_unfold : forall bsel h n children,
+  nohint_tree (Call bsel h n children) =
+  match bsel with None => true | Some _ => false end && is_no_hint h && all_nohint children.
+Proof. reflexivity. Qed.
+
+Lemma nohint_default : forall c, nohint_tree c = true -> default_tree c = true.
 Proof.
-  induction c as [bsel n children IH] using call_ind'. intros cpus Hd.
-  rewrite default_tree_unfold in Hd. apply andb_prop in Hd as [Hb Hch]. destruct bsel; [discriminate|].
+  induction c as [bsel h n children IH] using call_ind'. rewrite nohint_tree_unfold, default_tree_unfold. intros H.
+  apply andb_prop in H as [H Hch]. apply andb_prop in H as [Hb _]. rewrite Hb. cbn [andb].
+  induction IH as [|c t Hc _ IHt]; [reflexivity|]. cbn in Hch |- *. apply andb_prop in Hch as [H1 H2].
+  rewrite (Hc H1), (IHt H2). reflexivity.
+Qed.
+
+Lemma all_nohint_default : forall l, all_nohint l = true -> all_default l = true.
+Proof.
+  induction l as [|c t IH]; [reflexivity|]. cbn. intros H. apply andb_prop in H as [H1 H2].
+  rewrite (nohint_default c H1), (IH H2). reflexivity.
+Qed.
+
+Lemma procs_top_frontier : forall c cpus, nohint_tree c = true -> procs (top_site cpus) c = frontier cpus c.
+Proof.
+  induction c as [bsel h n children IH] using call_ind'. intros cpus Hd.
+  rewrite nohint_tree_unfold in Hd. apply andb_prop in Hd as [Hb Hch]. apply andb_prop in Hb as [Hb Hh].
+  destruct bsel; [discriminate|]. rewrite (is_no_hint_eq h Hh).
   cbn [frontier]. destruct (n =? 0) eqn:Hn.
   - assert (n = 0) by lia. subst. reflexivity.
   - destruct (resolve cpus n =? 1) eqn:Hr.
     + rewrite procs_top_sequential by lia. clear Hn Hr.
       induction IH as [|c t Hc _ IHt]; [reflexivity|]. cbn in Hch. apply andb_prop in Hch as [H1 H2].
       cbn. rewrite (Hc cpus H1), (IHt H2). reflexivity.
-    + apply procs_top_parallel; [lia|lia|assumption].
+    + apply procs_top_parallel; [lia|lia|]. apply all_nohint_default, Hch.
 Qed.
 
 (* ------------------------------------------- regenerated get_nested_backend / configure = the model *)
@@ -398,23 +436,23 @@ Definition max_conc (ws : site) :=
 Definition max_maxres (cpus : Z) :=
   fix go (l : list call) : Z := match l with [] => 1 | ch :: t => Z.max (maxres cpus ch) (go t) end.
 
-Lemma conc_unfold : forall s bsel n children,
-  conc s (Call bsel n children) =
-  match call_outcome s bsel n with
+Lemma conc_unfold : forall s bsel h n children,
+  conc s (Call bsel h n children) =
+  match call_outcome s bsel h n with
   | Raise _ => 0
   | Ok (b, eff) => eff * max_conc (worker_site s b) children
   end.
-Proof. intros. cbn [conc]. destruct (call_outcome s bsel n) as [[b eff]|]; reflexivity. Qed.
+Proof. intros. cbn [conc]. destruct (call_outcome s bsel h n) as [[b eff]|]; reflexivity. Qed.
 
-Lemma maxres_unfold : forall cpus bsel n children,
-  maxres cpus (Call bsel n children) = Z.max (Z.max 1 (resolve cpus n)) (max_maxres cpus children).
+Lemma maxres_unfold : forall cpus bsel h n children,
+  maxres cpus (Call bsel h n children) = Z.max (Z.max 1 (resolve cpus n)) (max_maxres cpus children).
 Proof. reflexivity. Qed.
 
 Lemma max_maxres_ge1 : forall cpus l, 1 <= max_maxres cpus l.
 Proof. induction l; cbn; lia. Qed.
 
 Lemma maxres_ge1 : forall cpus c, 1 <= maxres cpus c.
-Proof. intros cpus [b n ch]. rewrite maxres_unfold. lia. Qed.
+Proof. intros cpus [b h n ch]. rewrite maxres_unfold. lia. Qed.
 
 Lemma max_conc_bound : forall (B : call -> Z) ws children,
   Forall (fun c => conc ws c <= B c) children ->
@@ -430,9 +468,10 @@ Definition thr_site (s : site) : Prop := exists b, s_ctx s = Some b /\ bkind b =
 (* below a sequential context every default call runs one task at a time, whatever its n_jobs and whatever is below it *)
 Lemma conc_seq : forall c s, seq_site s -> default_tree c = true -> conc s c <= 1.
 Proof.
-  induction c as [bsel n children IH] using call_ind'. intros s Hs Hd.
+  induction c as [bsel h n children IH] using call_ind'. intros s Hs Hd.
   rewrite default_tree_unfold in Hd. apply andb_prop in Hd as [Hb Hch]. destruct bsel; [discriminate|].
-  rewrite conc_unfold. unfold call_outcome. cbn [chosen]. destruct Hs as (b & Hctx & Hk). unfold active. rewrite Hctx.
+  rewrite conc_unfold. unfold call_outcome. destruct Hs as (b & Hctx & Hk).
+  rewrite (chosen_ctx_shm s b h Hctx) by (rewrite Hk; reflexivity). destruct (hint_valid h); cbn [bind]; [|lia].
   destruct b as [k l]. cbn in Hk. subst k. unfold configure. cbn [bkind blevel eff_model].
   destruct (n =? 0); cbn [bind]; [lia|]. unfold worker_site. cbn [bkind].
   rewrite max_conc_le1; [lia|].
@@ -451,12 +490,12 @@ Qed.
 (* in a worker thread of a first-level call: at most the largest resolved n_jobs of the subtree, never a product *)
 Lemma conc_thr : forall c s, thr_site s -> default_tree c = true -> conc s c <= maxres (e_cpus (s_env s)) c.
 Proof.
-  induction c as [bsel n children IH] using call_ind'. intros s Hs Hd.
+  induction c as [bsel h n children IH] using call_ind'. intros s Hs Hd.
   rewrite default_tree_unfold in Hd. apply andb_prop in Hd as [Hb Hch]. destruct bsel; [discriminate|].
-  rewrite conc_unfold, maxres_unfold. unfold call_outcome. cbn [chosen].
-  destruct Hs as (b & Hctx & Hk & Hl). unfold active. rewrite Hctx.
+  rewrite conc_unfold, maxres_unfold. unfold call_outcome.
+  destruct Hs as (b & Hctx & Hk & Hl). pose proof (max_maxres_ge1 (e_cpus (s_env s)) children) as G1.
+  rewrite (chosen_ctx_shm s b h Hctx) by (rewrite Hk; reflexivity). destruct (hint_valid h); cbn [bind]; [|lia].
   destruct b as [k l]. cbn in Hk, Hl. subst k.
-  pose proof (max_maxres_ge1 (e_cpus (s_env s)) children) as G1.
   destruct (configure {| bkind := KThr; blevel := l |} (s_env s) n) as [[b' eff]|] eqn:E; [|lia].
   destruct (configure_spec _ _ _ _ _ E) as (Hge & Hlev & [[Hseq He] | [Heq Hne]]).
   - (* resolved to one worker: sequential, the children are calls of the same thread *)
@@ -481,12 +520,13 @@ Lemma worker_site_cpus : forall s b, e_cpus (s_env (worker_site s b)) = e_cpus (
 Proof. intros s [[] l]; reflexivity. Qed.
 
 (* from the top level: never more than two factors -- the first call that goes parallel and the largest n_jobs below it *)
-Lemma conc_top : forall c cpus, default_tree c = true ->
+Lemma conc_top : forall c cpus, nohint_tree c = true ->
   conc (top_site cpus) c <= maxres cpus c * maxres cpus c.
 Proof.
-  induction c as [bsel n children IH] using call_ind'. intros cpus Hd.
-  rewrite default_tree_unfold in Hd. apply andb_prop in Hd as [Hb Hch]. destruct bsel; [discriminate|].
-  rewrite conc_unfold, maxres_unfold. unfold call_outcome, chosen, active, top_site at 1. cbn [s_ctx s_env].
+  induction c as [bsel h n children IH] using call_ind'. intros cpus Hd.
+  rewrite nohint_tree_unfold in Hd. apply andb_prop in Hd as [Hb Hch]. apply andb_prop in Hb as [Hb Hh].
+  destruct bsel; [discriminate|]. rewrite (is_no_hint_eq h Hh).
+  rewrite conc_unfold, maxres_unfold. unfold call_outcome. rewrite chosen_top_nohint. cbn [bind].
   pose proof (max_maxres_ge1 cpus children) as G1.
   destruct (n =? 0) eqn:Hn.
   - assert (n = 0) by lia. subst. rewrite configure_zero. nia.
@@ -505,7 +545,7 @@ Proof.
       assert (max_conc {| s_ctx := Some (nested_backend {| bkind := KLoky; blevel := 0 |});
                           s_env := with_env (s_env (top_site cpus)) true (e_daemon (s_env (top_site cpus))) (e_depth (s_env (top_site cpus)) + 1) |}
                        children <= max_maxres cpus children) as M.
-      { apply (max_conc_bound (maxres cpus)). apply all_default_Forall; [|assumption].
+      { apply (max_conc_bound (maxres cpus)). apply all_default_Forall; [|apply all_nohint_default, Hch].
         apply Forall_forall. intros c _ Hdc.
         match goal with |- conc ?s c <= _ => change cpus with (e_cpus (s_env s)) at 2 end.
         apply conc_thr; [|assumption]. eexists; cbn [s_ctx]; split; [reflexivity|]. cbn. split; [reflexivity|lia]. }
@@ -516,9 +556,9 @@ Qed.
    a top-level call that goes parallel runs at most  n_jobs(root) x max n_jobs(below)  tasks at once *)
 Lemma conc_top_parallel : forall cpus n children,
   n <> 0 -> resolve cpus n <> 1 -> all_default children = true ->
-  conc (top_site cpus) (Call None n children) <= resolve cpus n * max_maxres cpus children.
+  conc (top_site cpus) (Call None no_hint n children) <= resolve cpus n * max_maxres cpus children.
 Proof.
-  intros cpus n children Hn Hr Hch. rewrite conc_unfold. unfold call_outcome, chosen, active, top_site at 1. cbn [s_ctx s_env].
+  intros cpus n children Hn Hr Hch. rewrite conc_unfold. unfold call_outcome. rewrite chosen_top_nohint. cbn [bind].
   unfold configure, default_backend. cbn [bkind blevel].
   rewrite eff_unguarded; [|lia|]. 2:{ unfold unguarded; cbn; repeat split; auto; lia. }
   cbn [bind]. change (e_cpus (s_env (top_site cpus))) with cpus.
@@ -602,9 +642,9 @@ Lemma C15_nesting_holds :
   (forall k, nested_backend {| bkind := k; blevel := 0 |} = {| bkind := KThr; blevel := 1 |}) /\
   (forall k l, 1 <= l -> nested_backend {| bkind := k; blevel := l |} = {| bkind := KSeq; blevel := l + 1 |}) /\
   (forall c s, worker_inv s -> default_tree c = true -> procs s c = 0) /\
-  (forall cpus n children, n <> 0 -> resolve cpus n <> 1 -> default_tree (Call None n children) = true ->
-     procs (top_site cpus) (Call None n children) = resolve cpus n) /\
-  (forall c cpus, default_tree c = true -> procs (top_site cpus) c = frontier cpus c).
+  (forall cpus n children, n <> 0 -> resolve cpus n <> 1 -> default_tree (Call None no_hint n children) = true ->
+     procs (top_site cpus) (Call None no_hint n children) = resolve cpus n) /\
+  (forall c cpus, nohint_tree c = true -> procs (top_site cpus) c = frontier cpus c).
 Proof.
   split; [exact nested_level0|]. split; [exact nested_level_ge1|]. split; [exact procs_below_worker|].
   split; [|exact procs_top_frontier].
@@ -635,9 +675,9 @@ Proof. intros. split; [rewrite eff_gen_eq_model; apply configure_gen_eq | apply 
 Lemma C15_nesting_concurrency_holds :
   (forall c s, seq_site s -> default_tree c = true -> conc s c <= 1) /\
   (forall c s, thr_site s -> default_tree c = true -> conc s c <= maxres (e_cpus (s_env s)) c) /\
-  (forall c cpus, default_tree c = true -> conc (top_site cpus) c <= maxres cpus c * maxres cpus c) /\
-  (forall cpus n children, n <> 0 -> resolve cpus n <> 1 -> default_tree (Call None n children) = true ->
-     conc (top_site cpus) (Call None n children) <= resolve cpus n * max_maxres cpus children).
+  (forall c cpus, nohint_tree c = true -> conc (top_site cpus) c <= maxres cpus c * maxres cpus c) /\
+  (forall cpus n children, n <> 0 -> resolve cpus n <> 1 -> default_tree (Call None no_hint n children) = true ->
+     conc (top_site cpus) (Call None no_hint n children) <= resolve cpus n * max_maxres cpus children).
 Proof.
   split; [exact conc_seq|]. split; [exact conc_thr|]. split; [exact conc_top|].
   intros cpus n children Hn Hr Hd. apply conc_top_parallel; assumption.
